@@ -1,0 +1,64 @@
+//go:build verif
+
+package pkcs12
+
+import (
+	"crypto/cipher"
+	"crypto/x509/pkix"
+	"encoding/asn1"
+)
+
+// Hooks for the verification harness in /verif (property C21): thin wrappers that
+// export unexported functions unchanged. Add-only; compiled only with -tags verif.
+
+// VerifC21Pbkdf is pbkdf with the parameters every caller in this package uses
+// (SHA-1, u = 20, v = 64).
+func VerifC21Pbkdf(salt, password []byte, r int, ID byte, size int) []byte {
+	return pbkdf(sha1Sum, 20, 64, salt, password, r, ID, size)
+}
+
+func VerifC21FillWithRepeats(pattern []byte, v int) []byte { return fillWithRepeats(pattern, v) }
+
+func VerifC21BmpString(s string) ([]byte, error) { return bmpString(s) }
+
+func VerifC21DecodeBMPString(b []byte) (string, error) { return decodeBMPString(b) }
+
+// VerifC21VerifyMac calls verifyMac on a macData value built from its parts.
+func VerifC21VerifyMac(oid asn1.ObjectIdentifier, digest, salt []byte, iterations int, message, password []byte) error {
+	md := &macData{
+		Mac:        digestInfo{Algorithm: pkix.AlgorithmIdentifier{Algorithm: oid}, Digest: digest},
+		MacSalt:    salt,
+		Iterations: iterations,
+	}
+	return verifyMac(md, message, password)
+}
+
+// VerifC21PbDecrypt calls pbDecrypt on an encryptedContentInfo built from its parts.
+// tripleDES selects pbeWithSHAAnd3-KeyTripleDES-CBC, otherwise pbeWithSHAAnd40BitRC2-CBC.
+func VerifC21PbDecrypt(tripleDES bool, salt []byte, iterations int, encrypted, password []byte) ([]byte, error) {
+	params, err := asn1.Marshal(pbeParams{Salt: salt, Iterations: iterations})
+	if err != nil {
+		return nil, err
+	}
+	oid := oidPBEWithSHAAnd40BitRC2CBC
+	if tripleDES {
+		oid = oidPBEWithSHAAnd3KeyTripleDESCBC
+	}
+	info := encryptedContentInfo{
+		ContentEncryptionAlgorithm: pkix.AlgorithmIdentifier{Algorithm: oid, Parameters: asn1.RawValue{FullBytes: params}},
+		EncryptedContent:           encrypted,
+	}
+	return pbDecrypt(info, password)
+}
+
+// VerifC21PbCipher returns the block cipher and IV exactly as pbDecrypterFor sets them up
+// (same pbeCipher.deriveKey / deriveIV / create), so that the harness can produce ciphertexts
+// with chosen plaintext tails for VerifC21PbDecrypt.
+func VerifC21PbCipher(tripleDES bool, salt, password []byte, iterations int) (cipher.Block, []byte, error) {
+	var c pbeCipher = shaWith40BitRC2CBC{}
+	if tripleDES {
+		c = shaWithTripleDESCBC{}
+	}
+	b, err := c.create(c.deriveKey(salt, password, iterations))
+	return b, c.deriveIV(salt, password, iterations), err
+}
